@@ -65,6 +65,10 @@ def fluid(spec, ex, x, y, z):
     v = v * (spec['vmax'] * np.tanh(nrm) / np.maximum(nrm, 1e-300))
     v2 = np.einsum('i...,j...,ij...->...', v, v, gam)
     W = 1 / np.sqrt(1 - v2)
+    if (spec['fseed'] // 10) % 3 == 1 and spec['fseed'] % 2 == 1:
+        # a tenuous fluid: densities and pressures of order 1e-11 (nothing about
+        # the closed forms depends on the overall scale)
+        rho0, press = rho0 * 1e-11, press * 1e-11
     return dict(rho0=rho0, eps=eps, press=press, v=v, W=W)
 
 
@@ -220,6 +224,12 @@ def run_case(spec):
         ex = zero_shift_x(ex)
     combo = spec['combo']
     fl = fluid(spec, ex, x, y, z)
+    # absolute floor for expected zeros: follows the density scale for the
+    # quantities that are proportional to it
+    tenuous = (spec['fseed'] // 10) % 3 == 1 and spec['fseed'] % 2 == 1
+    DENS = ('rho', 'rho0', 'press', 'Tdown4', 'Tup4', 'Ttrace', 'rho_n', 'flux', 'Stress', 'press_n',
+            'anisotropic', 'angmom', 'conserved')
+    floor_of = lambda k: 1e-12 * (1e-11 if tenuous and k.startswith(DENS) else 1.0)
     if combo == 'Tdown4':
         # any symmetric tensor: take a perfect fluid plus a random symmetric part
         exf = expected(spec, ex, fl, x, y, z, 'full')
@@ -277,7 +287,7 @@ def run_case(spec):
                     # returned there is judged by C01 (history independence)
                     diff = np.where(fl['rho0'] != 0, diff, 0.0)
                 err = diff.max()
-                if not err <= TOL * sc + 1e-12:
+                if not err <= TOL * sc + floor_of(k):
                     common.add_violation(res, f"{k} [{combo}]", {
                         "order": oname, "max_err": float(err), "scale": float(sc),
                         "vmax": spec['vmax'], "gauge": gclass(spec['member']),
@@ -291,7 +301,7 @@ def run_case(spec):
                 res['observations'] += 1
                 w = want[k]
                 val = np.asarray(rel[k])
-                if val.shape == w.shape and np.abs(val - w).max() > TOL * max(np.abs(w).max(), 1e-300) + 1e-12:
+                if val.shape == w.shape and np.abs(val - w).max() > TOL * max(np.abs(w).max(), 1e-300) + floor_of(k):
                     common.add_violation(res, f"{k} changed in the cache after later requests [{combo}]",
                                          {"order": oname})
         del rel
@@ -317,7 +327,7 @@ def run_case(spec):
         diff = np.abs(val - w) if val.shape == w.shape else np.array(np.inf)
         if combo == 'rho_rho0' and k in ('eps', 'enthalpy'):
             diff = np.where(fl['rho0'] != 0, diff, 0.0)
-        if not diff.max() <= TOL * np.abs(w).max() + 1e-12:
+        if not diff.max() <= TOL * np.abs(w).max() + floor_of(k):
             common.add_violation(res, f"{k} [{combo}]", {
                 "order": "asked first on a fresh instance", "max_err": float(diff.max()),
                 "gauge": gclass(spec['member']), "geometry_given_as": spec.get('geom', 'tensor')})
